@@ -391,20 +391,40 @@ class VCtx:
         return self.fn(*args, **kw)
 
     # ---- postconditions
-    def ensure(self, clause, cond, kind="post"):
+    def define(self, name, term):
+        """a fresh constant standing for `term` (definitional equation assumed: a conservative
+        extension), so that later obligations can treat a large term as one unknown"""
+        t = as_sym(term)
+        k = Sym(z3.Const(core.fresh_name(name), t.t.sort()), t.nan)
+        CTX.assume(k.t == t.t)
+        return k
+
+    def mark(self):
+        """position in the list of established facts; an obligation given since=mark is first tried
+        from the facts established after the mark alone (a subset of its hypotheses, so a proof from
+        them is a proof), which keeps algebraic consequences of lemmas out of the big Sigma context"""
+        return len(CTX.pc)
+
+    def _meta(self, since):
+        m = {"scenario": self.scenario}
+        if since is not None:
+            m["focus_from"] = since
+        return m
+
+    def ensure(self, clause, cond, kind="post", since=None):
         c = as_sym(cond)
         t = c.t if c.is_bool else (c.t != 0)
-        CTX.oblige(f"{self.contract.key}#{clause}", t, kind, meta={"scenario": self.scenario})
+        CTX.oblige(f"{self.contract.key}#{clause}", t, kind, meta=self._meta(since))
 
-    def lemma(self, clause, cond):
+    def lemma(self, clause, cond, since=None):
         """intermediate fact: proved as an obligation of its own, then available
         (quantifier-free) to the obligations that follow"""
         c = as_sym(cond)
-        CTX.oblige(f"{self.contract.key}#{clause}", c.t, "lemma", meta={"scenario": self.scenario})
+        CTX.oblige(f"{self.contract.key}#{clause}", c.t, "lemma", meta=self._meta(since))
         CTX.assume(c.t)
 
-    def lemma_eq(self, clause, a, b):
-        self.lemma(clause, as_sym(a) == as_sym(b))
+    def lemma_eq(self, clause, a, b, since=None):
+        self.lemma(clause, as_sym(a) == as_sym(b), since=since)
 
     def derive_nonneg(self, on=True):
         """record Sigma >= 0 (WS.sum_nonneg) whenever the summand is provably >= 0 on its
@@ -424,15 +444,15 @@ class VCtx:
         CTX.events.append(("lean_lemma", name))
         CTX.assume(as_sym(instance).t)
 
-    def ensure_eq(self, clause, got, want, kind="post"):
+    def ensure_eq(self, clause, got, want, kind="post", since=None):
         g, w = as_sym(got), as_sym(want)
         gn, wn = core.to_z3_bool(g.nan), core.to_z3_bool(w.nan)
         goal = z3.And(gn == wn, z3.Implies(z3.Not(wn), g.real() == w.real()))
-        CTX.oblige(f"{self.contract.key}#{clause}", goal, kind, meta={"scenario": self.scenario})
+        CTX.oblige(f"{self.contract.key}#{clause}", goal, kind, meta=self._meta(since))
 
-    def ensure_angle_eq(self, clause, got, want, kind="post"):
+    def ensure_angle_eq(self, clause, got, want, kind="post", since=None):
         """equality of directions (degrees); symbolically plain equality"""
-        self.ensure_eq(clause, got, want, kind)
+        self.ensure_eq(clause, got, want, kind, since=since)
 
     def ensure_true(self, clause, pybool, detail=""):
         """structural (non-symbolic) postcondition, e.g. dims of the result"""
@@ -614,15 +634,21 @@ class CCtx:
             warnings.simplefilter("ignore")
             return self.fn(*args, **kw)
 
-    def ensure(self, clause, cond, kind="post"):
+    def define(self, name, term):
+        return term
+
+    def mark(self):
+        return 0
+
+    def ensure(self, clause, cond, kind="post", since=None):
         self.checked += 1
         if not bool(cond):
             self.failures.append((clause, "condition false", None, None))
 
-    def lemma(self, clause, cond):
+    def lemma(self, clause, cond, since=None):
         self.ensure(clause, cond)
 
-    def lemma_eq(self, clause, a, b):
+    def lemma_eq(self, clause, a, b, since=None):
         self.ensure_eq(clause, a, b)
 
     def derive_nonneg(self, on=True):
@@ -632,7 +658,7 @@ class CCtx:
         # the lemma is machine-checked in Lean; nothing to evaluate numerically
         self.checked += 1
 
-    def ensure_eq(self, clause, got, want, kind="post"):
+    def ensure_eq(self, clause, got, want, kind="post", since=None):
         self.checked += 1
         g = float(real_np.asarray(got))
         w = float(want)
@@ -650,7 +676,7 @@ class CCtx:
             if abs(g - w) > self.tol * max(abs(w), abs(g)) + self.atol:
                 self.failures.append((clause, "value mismatch", g, w))
 
-    def ensure_angle_eq(self, clause, got, want, kind="post"):
+    def ensure_angle_eq(self, clause, got, want, kind="post", since=None):
         """directions compared on the circle (359.99999 and 0.00001 are 2e-5 apart); float32 results"""
         self.checked += 1
         g = float(real_np.asarray(got))
